@@ -391,3 +391,132 @@ Definition region_first (r c rmin cmin : Z) : Z := {first}.
 Definition region_second (r c rmin cmin : Z) : Z := {second}.
 Definition region_origin : Z := {origin}.
 """
+
+
+# ------------------------------------------------------------------------------------------
+# C07  BANE: stripe layout, pool/barrier sizes, order of shared-memory accesses and waits
+def _is_call(st, text):
+    return isinstance(st, ast.Expr) and isinstance(st.value, ast.Call) and src(st.value) == text
+
+
+@point('BaneSync')
+def gen_banesync(repo):
+    tree = parse_file(_p(repo, 'BANE.py'))
+    sf = find_func(tree, 'sigma_filter')
+    events = []
+    for st in sf.body:
+        if isinstance(st, ast.Assign) and len(st.targets) == 1:
+            t = src(st.targets[0])
+            if t == 'ibkg[ymin:ymax, :]':
+                events.append('write_bkg')
+            elif t == 'irms[ymin:ymax, :]':
+                events.append('write_rms')
+            elif t.startswith('ibkg[') or t.startswith('irms['):
+                raise TranslateError(f"sigma_filter: unexpected shared-memory write {t}")
+        elif isinstance(st, ast.AugAssign) and 'ibkg' in src(st.value):
+            if src(st) != 'data -= ibkg[data_row_min:data_row_max, :]':
+                raise TranslateError(f"sigma_filter: background subtraction is {src(st)}")
+            events.append('read_bkg')
+        elif _is_call(st, 'barrier.wait()'):
+            events.append('wait')
+        elif _is_call(st, 'barrier.reset()'):
+            events.append('reset')
+        elif isinstance(st, ast.If) and src(st.test) == 'domask':
+            inner = []
+            for s2 in st.body:
+                if _is_call(s2, 'barrier.wait()'):
+                    inner.append('wait')
+                elif _is_call(s2, 'barrier.reset()'):
+                    inner.append('reset')
+                elif isinstance(s2, ast.Assign) and src(s2.targets[0]) in ('ibkg[ymin:ymax, :][mask]', 'irms[ymin:ymax, :][mask]'):
+                    if src(s2.value) != 'np.nan':
+                        raise TranslateError("sigma_filter: mask value")
+                    inner.append('mask_' + src(s2.targets[0])[:4])
+                elif isinstance(s2, ast.Assign) and ('ibkg[' in src(s2.targets[0]) or 'irms[' in src(s2.targets[0])):
+                    raise TranslateError(f"sigma_filter: unexpected masked write {src(s2.targets[0])}")
+            if st.orelse:
+                raise TranslateError("sigma_filter: `if domask` has an else branch")
+            events.append(tuple(inner))
+        else:
+            for n in ast.walk(st):
+                if isinstance(n, ast.Call) and src(n.func).startswith('barrier.'):
+                    raise TranslateError(f"sigma_filter: barrier call in an unexpected place: {src(n)}")
+                if isinstance(n, ast.Subscript) and src(n.value) in ('ibkg', 'irms') and not isinstance(st, (ast.Assign,)):
+                    raise TranslateError(f"sigma_filter: shared-memory access in an unexpected place: {src(st)[:60]}")
+    flat = [e for e in events if not isinstance(e, tuple)]
+    maskev = [e for e in events if isinstance(e, tuple)]
+    if len(maskev) != 1 or events[-1] != maskev[0]:
+        raise TranslateError("sigma_filter: the `if domask` block is not the last shared-memory step")
+    m = list(maskev[0])
+    wait1 = flat == ['write_bkg', 'wait', 'read_bkg', 'write_rms']
+    nowait1 = flat == ['write_bkg', 'read_bkg', 'write_rms']
+    reset1 = flat == ['write_bkg', 'wait', 'reset', 'read_bkg', 'write_rms']
+    if not (wait1 or nowait1 or reset1):
+        raise TranslateError(f"sigma_filter: unexpected order of shared-memory steps {flat}")
+    wait2 = m[:1] == ['wait']
+    reset2 = m[:2] == ['wait', 'reset']
+    rest = [e for e in m if e not in ('wait', 'reset')]
+    if sorted(rest) != ['mask_ibkg', 'mask_irms']:
+        raise TranslateError(f"sigma_filter: mask block is {m}")
+    # wrapper: abort on error
+    w = find_func(tree, '_sf2')
+    tries = [n for n in w.body if isinstance(n, ast.Try)]
+    if len(tries) != 1 or len(tries[0].handlers) != 1:
+        raise TranslateError("_sf2: try/except")
+    h = tries[0].handlers[0]
+    aborts = any(isinstance(n, ast.Call) and src(n) == 'barrier.abort()' for n in ast.walk(h))
+    reraises = any(isinstance(n, ast.Raise) for n in h.body)
+    if not reraises:
+        raise TranslateError("_sf2: the handler does not re-raise")
+    # parent
+    fm = find_func(tree, 'filter_mc_sharemem')
+    trz = Tr('Z', {'cores': 'cores', 'len(ymaxs)': 'n', 'len(ymins)': 'n', 'len(args)': 'n'})
+    bar = [n for n in ast.walk(fm) if isinstance(n, ast.Call) and src(n.func) == 'ctx.Barrier']
+    if len(bar) != 1 or len(bar[0].keywords) != 1 or bar[0].keywords[0].arg != 'parties':
+        raise TranslateError("filter_mc_sharemem: Barrier(parties=...)")
+    parties = trz.expr(bar[0].keywords[0].value)
+    pool = [n for n in ast.walk(fm) if isinstance(n, ast.Call) and src(n.func) == 'ctx.Pool']
+    kw = {k.arg: k.value for k in pool[0].keywords} if len(pool) == 1 else {}
+    if 'processes' not in kw or src(kw.get('maxtasksperchild', ast.Constant(0))) != '1':
+        raise TranslateError("filter_mc_sharemem: Pool(processes=..., maxtasksperchild=1)")
+    processes = trz.expr(kw['processes'])
+    # layout
+    env = {'img_y': 'rows', 'width_y': 'w'}
+    ymins = src(one_assign_in(fm, 'ymins', 0))
+    ymaxs = src(one_assign_in(fm, 'ymaxs', 0))
+    if ymins != 'list(range(0, img_y, width_y))' or ymaxs != 'list(range(width_y, img_y, width_y))':
+        raise TranslateError(f"filter_mc_sharemem: layout {ymins} / {ymaxs}")
+    if not any(_is_call(n, 'ymaxs.append(img_y)') for n in ast.walk(fm)):
+        raise TranslateError("filter_mc_sharemem: ymaxs.append(img_y)")
+    # finally: close + unlink of both segments
+    outer = [n for n in fm.body if isinstance(n, ast.Try)]
+    if len(outer) != 1:
+        raise TranslateError("filter_mc_sharemem: outer try")
+    fin = [src(s) for s in outer[0].finalbody]
+    unl = all(x in fin for x in ('ibkg.close()', 'ibkg.unlink()', 'irms.close()', 'irms.unlink()'))
+    created = [src(s) for s in outer[0].body[:6]]
+    halo = find_assigns(sf, 'data_row_min') and find_assigns(sf, 'data_row_max')
+    tr2 = Tr('Z', {'ymin': 'ymin', 'ymax': 'ymax', 'box_size[0]': 'box', 'shape[0]': 'rows'})
+    drmin = tr2.expr(one_assign(sf, 'data_row_min').value)
+    drmax = tr2.expr(one_assign(sf, 'data_row_max').value)
+    b = lambda x: 'true' if x else 'false'  # noqa: E731
+    return HEADER_Z + f"""
+(* BANE.sigma_filter / _sf2 / filter_mc_sharemem: synchronisation skeleton *)
+Definition wait_before_read : bool := {b(wait1 or reset1)}.
+Definition wait_before_mask : bool := {b(wait2)}.
+Definition reset_after_wait : bool := {b(reset1 or reset2)}.
+Definition abort_on_error : bool := {b(aborts)}.
+Definition unlink_in_finally : bool := {b(unl)}.
+Definition parties (cores n : Z) : Z := {parties}.
+Definition pool_size (cores n : Z) : Z := {processes}.
+(* rows of the image a stripe reads: its own rows plus half a box on either side *)
+Definition data_row_min (ymin ymax box rows : Z) : Z := {drmin}.
+Definition data_row_max (ymin ymax box rows : Z) : Z := {drmax}.
+"""
+
+
+def one_assign_in(fn, name, which):
+    a = find_assigns(fn, name)
+    if not a:
+        raise TranslateError(f"{fn.name}: no assignment to {name}")
+    return a[which].value
